@@ -1,8 +1,11 @@
 #!/bin/bash
-# runs every registered quick check once with VERIF_SEED (default 0); prints one line per check
-cd /verif
-for i in $(seq -w 1 20); do
+# runs every registered check once with VERIF_SEED (default 0) and TIER (default quick) from the checkout this script lives in;
+# prints one line per check
+cd "$(dirname "$0")/.." || exit 2
+[ -x lean/.lake/build/bin/pvdrv ] || (cd lean && lake build >/dev/null 2>&1)
+for i in ${CHECKS:-$(seq -w 1 20)}; do
   s=$(date +%s)
   out=$(VERIF_SEED=${VERIF_SEED:-0} ./check C$i --tier ${TIER:-quick} 2>&1); rc=$?
   echo "C$i rc=$rc $(( $(date +%s) - s ))s viol=$(echo "$out" | grep -c '^VIOLATION') known=$(echo "$out" | grep -c '^KNOWN-FINDING') $(echo "$out" | grep 'INFRA' | head -1)"
+  echo "$out" | grep '^VIOLATION' | head -3
 done
